@@ -186,6 +186,8 @@ def reference(argv, C):
         av = C['ld'] + ld + ['-o', output if output is not None else 'a.out']
         if not nostdlib: av += C['start']
         for name, t, lib in inputs:
+            if 'ld' not in STAGESOF[t]:
+                continue                  # takes no part in the link: skipped
             if lib: av.append('-l')
             av.append(name)
         if not nostdlib: av += C['end']
